@@ -473,6 +473,9 @@ func (s *Service) prepareProxyRequest(ctx context.Context, r *http.Request, targ
 	if err != nil {
 		return nil, err
 	}
+	// the URL was rendered and parsed again: a raw '#' in the client's query would be taken for a
+	// fragment and dropped. Pass the query on verbatim.
+	proxyReq.URL.RawQuery, proxyReq.URL.Fragment, proxyReq.URL.RawFragment = targetURL.RawQuery, "", ""
 
 	// Copy headers
 	headerStart := time.Now()
